@@ -10,6 +10,7 @@ for d in sorted(glob.glob(os.path.join(lean, "RV", "*", "Drive.lean"))):
     prop = os.path.basename(os.path.dirname(d))
     exes.append(f"drv_{prop.lower()}")
     out += ["[[lean_exe]]", f'name = "drv_{prop.lower()}"', f'root = "RV.{prop}.Drive"', ""]
+out[2] = "defaultTargets = [" + ", ".join(f'"{t}"' for t in ["RV"] + exes) + "]"
 txt = "\n".join(out)
 p = os.path.join(lean, "lakefile.toml")
 if not os.path.exists(p) or open(p).read() != txt:
